@@ -63,9 +63,9 @@ class MeasurementKey:
 
     def __repr__(self):
         if self.path:
-            return f"cirq.MeasurementKey(path={self.path!r}, name='{self.name}')"
+            return f"cirq.MeasurementKey(path={self.path!r}, name={self.name!r})"
         else:
-            return f"cirq.MeasurementKey(name='{self.name}')"
+            return f"cirq.MeasurementKey(name={self.name!r})"
 
     def __str__(self):
         if self._str is None:
